@@ -47,6 +47,10 @@ func (propC03) Gen(r *Rng, run uint64, tier string) *Plan {
 		// one very large frame (beyond any plausible buffer size)
 		log := p.World.Containers[0].Log
 		n := []int{64*1024 - 31, 64 * 1024, 64*1024 + 1, 128*1024 + 7, 300 * 1024, 1024*1024 + 3, 4*1024*1024 + 1, 5 * 1024 * 1024}[r.Intn(8)]
+		if r.Bool(0.08) {
+			// beyond any "plausible" frame size a decoder might assume
+			n = []int{16*1024*1024 + 1, 17 * 1024 * 1024, 33 * 1024 * 1024}[r.Intn(3)]
+		}
 		b := make([]byte, n)
 		for i := range b {
 			b[i] = byte('A' + i%23)
